@@ -643,13 +643,13 @@ func schedPanics(sr *schedRun, res *Result, prop string, seed uint64) bool {
 	}
 	for _, p := range sr.sim.Panics {
 		bad = true
-		res.AddViolation(&Violation{Prop: prop, Class: "task-panic", Sig: prop + "|task-panic|" + normMsg(fmt.Sprint(p.Panic)) + " [" + stackFrames(p.Stack, 1) + "]" + coldSuffix(sr), Seed: seed,
+		res.AddViolation(&Violation{Prop: prop, Class: "task-panic", Sig: prop + "|task-panic|" + normMsg(fmt.Sprint(p.Panic)) + " [" + stackFrames(p.Stack, 1) + "]" + coldSuffix(sr) + inlineSuffix(sr), Seed: seed,
 			Detail: fmt.Sprintf("task %s panicked: %v [%s]", p.Name, firstLine(fmt.Sprint(p.Panic)), stackFrames(p.Stack, 3)), Replay: map[string]interface{}{"history": describeHistory(sr)}})
 	}
 	for _, op := range sr.ops {
 		if ae, ok := op.err.(*APIError); ok && ae.Panic && op.kind == "write" {
 			bad = true
-			res.AddViolation(&Violation{Prop: prop, Class: "write-panic", Sig: prop + "|write-panic|" + normMsg(ae.Msg) + " [" + stackFrames(ae.Stack, 1) + "]" + coldSuffix(sr), Seed: seed,
+			res.AddViolation(&Violation{Prop: prop, Class: "write-panic", Sig: prop + "|write-panic|" + normMsg(ae.Msg) + " [" + stackFrames(ae.Stack, 1) + "]" + coldSuffix(sr) + inlineSuffix(sr), Seed: seed,
 				Detail: fmt.Sprintf("client %d: write panicked: %s [%s]", op.client, firstLine(ae.Msg), stackFrames(ae.Stack, 3)), Replay: map[string]interface{}{"history": describeHistory(sr)}})
 		}
 	}
@@ -797,6 +797,16 @@ func writeEntirelyBefore(sr *schedRun, key string, t, got int64, op *schedOp) bo
 		}
 	}
 	return true // unknown id: treat as old
+}
+
+// inlineSuffix tags a run in which a client request, after Shutdown had been
+// requested, found the unsynchronised haveWALWriter false and flushed inline,
+// concurrently with the WAL writer's final flush (the known cause C35 lists).
+func inlineSuffix(sr *schedRun) string {
+	if sr.inlineFlush {
+		return "|request-flushed-inline-during-shutdown"
+	}
+	return ""
 }
 
 func coldSuffix(sr *schedRun) string {
